@@ -19,7 +19,7 @@ RULE = ('seeded random (F, Q, dt): n 1..24 (mpmath subset n<=12 in quick), F sta
         '(n<=2 integrator or the single random 15x15 at one dt); distinct = generator parameters')
 ASSUMPTIONS = ['mpmath Taylor expm at 50 digits is exact relative to float64',
                'rounding bound kappa = exp(|F|_2 dt) * (1+|F|dt)  (conditioning of the block exponential)']
-REQUIRED_OBS = ['float_route_compared', 'in_place_updates_between_calls', 'integer_typed_inputs', 'post_checked', 'mp_compared', 'composition_checked', 'zero_step_checked', 'ambient_calls_checked']
+REQUIRED_OBS = ['returned_arrays_overwritten', 'float_route_compared', 'in_place_updates_between_calls', 'integer_typed_inputs', 'post_checked', 'mp_compared', 'composition_checked', 'zero_step_checked', 'ambient_calls_checked']
 REQUIRED_CLASSES = {'all': ['stable', 'unstable', 'nilpotent', 'triangular', 'diagonal', 'zero', 'random', 'singularQ', 'dt0', 'integer', 'ambient']}
 EPS = np.finfo(float).eps
 C_PHI = 5e4   # scipy 1.18 expm is only ~1e-12 relative on small blocks (measured: 620 eps)
@@ -154,6 +154,9 @@ def gen(case):
         r = int(rng.integers(0, max(1, n)))
     G = rng.standard_normal((n, r))
     Q = G @ G.T * 10 ** rng.uniform(-6, 3)
+    if rng.random() < 0.25:
+        # navigation-grade noise densities: every entry of Q far below 1e-8 (and a few far above 1): Qd is linear in Q, no magnitude is 'zero'
+        Q = G @ G.T * 10 ** rng.uniform(-26, -9) if rng.random() < 0.8 else G @ G.T * 10 ** rng.uniform(4, 12)
     dt = float(rng.choice([rng.uniform(0, 10), 10 ** rng.uniform(-3, 1), 10 ** rng.uniform(-8, -3)]))
     if cls == 'dt0':
         dt = 0.0
@@ -315,6 +318,12 @@ def run_case(case):
         out.append(vio('composition_q', f'|acc Q_i - Qd| = {eQ:.3e} > {k * bq:.3e}', parts=parts))
     if bq > 0:
         obs['max_comp_q_ratio'] = max(obs.get('max_comp_q_ratio', 0), eQ / (k * bq))
+    # the caller owns what it was handed back: overwrite it (a zero-step / zero-noise shortcut that hands out a shared constant matrix
+    # answers the NEXT such call - of this or a later case - with these values, which the contract then sees)
+    for arr in (Phi, Qd, Pi, Qi):
+        if isinstance(arr, np.ndarray) and arr.flags.writeable:
+            arr[...] = 4.25
+            obs['returned_arrays_overwritten'] = obs.get('returned_arrays_overwritten', 0) + 1
     nontrivial = n > 2 and not (n == 15 and dt == 1.0)
     if case['cls'] == 'integer':
         obs['integer_typed_inputs'] = 1
